@@ -5,7 +5,11 @@
 //   name     method (success)                                    echo
 //   td       td(#[sv::data] data: Digit, raw payload)             500
 //   td_opt   td_opt(#[sv::data(opt)] data: Option<Digit>, raw)    510
-// Echo args: [gas_used, 1 + data.v (or 0 for None), payload len, 0]
+//   td_oty   td_oty(#[sv::data] data: Option<Digit>, raw)         515   MANDATORY typed mode whose payload
+//                                                                      type happens to be an Option
+//   tp_ok    tp_ok(note: Digit)            success only, TYPED payload   520
+//   tp_err   tp_err(error, note: Digit)    error only,   TYPED payload   530
+// Echo args: [gas_used, 1 + data.v (or 0 for None), payload len, 0]; tp_*: [gas_used, 1 + note.v, 0, 0]
 
 use support::echo::MyErr;
 use sylvia::cw_std::StdError;
@@ -67,6 +71,28 @@ pub mod rd {
                 None => 0,
             };
             rec_mut(510, [ctx.gas_used, d, p.len() as u64, 0], &mut ctx.deps, &ctx.env, None);
+            outcome()
+        }
+
+        #[sv::msg(reply, reply_on=success)]
+        pub fn td_oty(&self, mut ctx: ReplyCtx, #[sv::data] data: Option<Digit>, #[sv::payload(raw)] p: Binary) -> Result<Response, RdErr> {
+            let d = match &data {
+                Some(x) => 1 + x.v as u64,
+                None => 0,
+            };
+            rec_mut(515, [ctx.gas_used, d, p.len() as u64, 0], &mut ctx.deps, &ctx.env, None);
+            outcome()
+        }
+
+        #[sv::msg(reply, reply_on=success)]
+        pub fn tp_ok(&self, mut ctx: ReplyCtx, note: Digit) -> Result<Response, RdErr> {
+            rec_mut(520, [ctx.gas_used, 1 + note.v as u64, 0, 0], &mut ctx.deps, &ctx.env, None);
+            outcome()
+        }
+
+        #[sv::msg(reply, reply_on=error)]
+        pub fn tp_err(&self, mut ctx: ReplyCtx, _error: String, note: Digit) -> Result<Response, RdErr> {
+            rec_mut(530, [ctx.gas_used, 1 + note.v as u64, 0, 0], &mut ctx.deps, &ctx.env, None);
             outcome()
         }
     }
